@@ -40,8 +40,8 @@ type C02Plan struct {
 	Sweep    string        `json:"sweep,omitempty"` // "flips+truncs": exhaustive over the payload region of a small file
 	Damage   *Damage       `json:"damage,omitempty"`
 	Seq      []ChunkOp     `json:"seq,omitempty"`
-	Prefix   int           `json:"prefix,omitempty"` // with-key sequences: this many honest full chunks come first (counters of the sequence are offset by it)
-	Rearmor  bool          `json:"rearmor,omitempty"` // carry the damaged binary through canonical armor
+	Prefix   int           `json:"prefix,omitempty"`   // with-key sequences: this many honest full chunks come first (counters of the sequence are offset by it)
+	Rearmor  bool          `json:"rearmor,omitempty"`  // carry the damaged binary through canonical armor
 	SrcTemp  bool          `json:"src_temp,omitempty"` // inserted/appended bytes arrive in one Read together with a transient error (once); the source then goes on
 	Delivery seam.Delivery `json:"delivery"`
 	Reads    lib.ReadSched `json:"reads"`
@@ -49,8 +49,10 @@ type C02Plan struct {
 
 type C02 struct{}
 
-func (C02) ID() string           { return "C02" }
-func (C02) Title() string        { return "storage faults and writer crashes on the payload, byzantine re-chunking" }
+func (C02) ID() string { return "C02" }
+func (C02) Title() string {
+	return "storage faults and writer crashes on the payload, byzantine re-chunking"
+}
 func (C02) NewPlan() interface{} { return &C02Plan{} }
 func (C02) Runs(tier string) int {
 	if tier == "thorough" {
@@ -62,7 +64,7 @@ func (C02) Runs(tier string) int {
 func (C02) Meta() core.Meta {
 	return core.Meta{
 		Level: "fault_enumeration",
-		Rule: "a case = (file, one storage fault or writer-crash point or with-key chunk sequence, delivery schedule, read schedule); every damaged image is read under the plan's schedule plus unbuffered data-with-EOF and byte-at-a-time. Sweep runs enumerate every bit flip, every truncation length, every deleted byte, an inserted byte at every offset and every extension by 1..18 bytes of the payload region (nonce and chunks) of a small file, and every extension by 1..40 bytes (zeros, random, copy of the last chunk, a sealed empty chunk) of files whose final chunk is full-size; sampled runs damage multi-chunk files near chunk boundaries (flip, insert, delete, extend, drop/dup/swap/move/misdirect a chunk write) or build a with-key sequence of up to 5 chunk variants (one run per batch puts such a tail behind 255..257 honest chunks, 16 MiB) (other counter, other final flag, short, empty, split in two, sealed under a foreign key). Non-trivial = image differs from the honest file; distinct = distinct (file skeleton, damage, delivery).",
+		Rule:  "a case = (file, one storage fault or writer-crash point or with-key chunk sequence, delivery schedule, read schedule); every damaged image is read under the plan's schedule plus unbuffered data-with-EOF and byte-at-a-time. Sweep runs enumerate every bit flip, every truncation length, every deleted byte, an inserted byte at every offset and every extension by 1..18 bytes of the payload region (nonce and chunks) of a small file, and every extension by 1..40 bytes (zeros, random, copy of the last chunk, a sealed empty chunk) of files whose final chunk is full-size; sampled runs damage multi-chunk files near chunk boundaries (flip, insert, delete, extend, drop/dup/swap/move/misdirect a chunk write) or build a with-key sequence of up to 5 chunk variants (one run per batch puts such a tail behind 255..257 honest chunks, 16 MiB) (other counter, other final flag, short, empty, split in two, sealed under a foreign key). Non-trivial = image differs from the honest file; distinct = distinct (file skeleton, damage, delivery).",
 		Assumptions: []string{
 			"ChaCha20-Poly1305, HKDF and the reference STREAM model are the trusted base",
 			"with-key sequences: accepted with a clean end => image is byte for byte the canonical encoding of the released plaintext (one chunking per plaintext); a (key, nonce) pair reused across different plaintexts is not a generated fault",
